@@ -8,7 +8,7 @@ From Coq Require Import ZArith QArith Qreals Reals List Bool Lra.
 From Coquelicot Require Import Coquelicot.
 From Interval Require Import Tactic.
 From Gen Require Import GenIAPWS GenTraced.
-From P Require Import Expr RunR Formulas SatInv SatRange B23 Deriv Potential Mono1 Mono2 Mono2Caps
+From P Require Import Expr RunR Formulas SatInv SatRange B23 Deriv Potential Mono1 Mono2 Mono2Caps Mono2CapsA
   Mono2TilesA Mono2TilesB Mono2TilesC Mono2TilesD Mono2TilesE Mono2TilesF Mono2TilesG Mono2TilesH.
 Import ListNotations.
 Close Scope Q_scope.
